@@ -296,7 +296,15 @@ class Exec:
         self.nsym += 1
         return z3.Bool('%s!%d' % (pfx, self.nsym))
 
+    def _model(self):
+        m = getattr(self, '_alt_model', None)
+        if m is not None:
+            self._alt_model = None
+            return m
+        return self.solver.model()
+
     def _check(self, *extra):
+        self._alt_model = None
         t = time.time()
         self.stats.queries += 1
         r = self.solver.check(*extra)
@@ -306,7 +314,22 @@ class Exec:
         elif r == z3.unsat:
             self.stats.unsat += 1
         else:
-            raise Unmodelled('solver returned unknown: %s' % self.solver.reason_unknown())
+            # retry once, non-incrementally (a fresh solver uses the full bit-vector tactic pipeline) with a longer limit
+            s2 = z3.SolverFor('QF_BV')
+            s2.set('timeout', max(60000, self.qtimeout_ms * 6))
+            s2.add(*self.pc)
+            s2.add(*extra)
+            t = time.time()
+            r = s2.check()
+            self.stats.solver_s += time.time() - t
+            self.stats.queries += 1
+            if r == z3.sat:
+                self.stats.sat += 1
+                self._alt_model = s2.model()
+            elif r == z3.unsat:
+                self.stats.unsat += 1
+            else:
+                raise Unmodelled('solver returned unknown: %s' % s2.reason_unknown())
         return r
 
     def assume(self, cond):
@@ -327,7 +350,7 @@ class Exec:
                 return
             if self._check() != z3.sat:
                 raise Infeasible()
-            self.model = self.solver.model()
+            self.model = self._model()
 
     def branch(self, cond):
         """decide a condition: returns a Python bool; forks when both sides are feasible"""
@@ -359,7 +382,7 @@ class Exec:
         if known is None:
             r1 = self._check(cond)
             if r1 == z3.sat:
-                self.model = self.solver.model()
+                self.model = self._model()
                 known = True
             else:
                 # pc is satisfiable by construction, so the other side is feasible
@@ -414,7 +437,7 @@ class Exec:
         if cond is False:
             if self.model is None:
                 self._check()
-                self.model = self.solver.model()
+                self.model = self._model()
             return self.model
         cond = z3.simplify(cond)
         if z3.is_true(cond):
@@ -424,12 +447,12 @@ class Exec:
         if r == z3.unsat:
             self.stats.discharged += 1
             return None
-        return self.solver.model()
+        return self._model()
 
     def any_model(self):
         if self.model is None:
             self._check()
-            self.model = self.solver.model()
+            self.model = self._model()
         return self.model
 
     # ------------------------------------------------------------------ types
